@@ -578,6 +578,39 @@ theorem key_ne_of_st {a b : Bundle} (h : (a.src, a.ts) ≠ (b.src, b.ts)) : a.ke
   have h2 : a.key.ts = b.key.ts := by rw [e]
   exact Prod.ext h1 h2
 
+/-- In the domain, a submitted bundle has a new ID and a new (source, time) pair for the IdKeeper. -/
+theorem submit_fresh (c : Cfg) (past fut : List Event) (b : Bundle) (hdom : Domain (past ++ .submit b :: fut))
+    (s : SpecSt) (n : Node) (inv : RInv c past s n) :
+    n.store.get b.key = none ∧ lookupNat n.idk (b.src, b.ts) = none ∧ b.seq = 0 := by
+  have hsub : submitted (past ++ .submit b :: fut) = submitted past ++ b :: submitted fut := by
+    rw [submitted_append]; rfl
+  have hrec : received (past ++ .submit b :: fut) = received past ++ received fut := by
+    rw [received_append]; rfl
+  have hbmem : b ∈ submitted (past ++ .submit b :: fut) := by
+    rw [hsub]; exact List.mem_append_right _ List.mem_cons_self
+  have hsubne : ∀ a ∈ submitted past, (a.src, a.ts) ≠ (b.src, b.ts) := by
+    intro a ha
+    have := hdom.subDistinct
+    rw [hsub] at this
+    exact (List.pairwise_append.mp this).2.2 a ha b List.mem_cons_self
+  have hrecne : ∀ a ∈ received past, (a.src, a.ts) ≠ (b.src, b.ts) := by
+    intro a ha
+    have := hdom.disjoint b hbmem a (by rw [hrec]; exact List.mem_append_left _ ha)
+    exact fun h => this h.symm
+  refine ⟨?_, ?_, hdom.subSeq b hbmem⟩
+  · cases hg : n.store.get b.key with
+    | none => rfl
+    | some it =>
+      rcases inv.keysFrom _ it hg with ⟨a, ha, hak⟩
+      rcases ha with ha | ha
+      · exact absurd hak (key_ne_of_st (hsubne a ha))
+      · exact absurd hak (key_ne_of_st (hrecne a ha))
+  · cases hl : lookupNat n.idk (b.src, b.ts) with
+    | none => rfl
+    | some v =>
+      rcases inv.idkFrom (b.src, b.ts) (by rw [hl]; rfl) with ⟨a, ha, hst⟩
+      exact absurd hst (hsubne a ha)
+
 theorem core_submit (c : Cfg) (hfix : c.holdFix = true) (hexp : c.expiryNow = true) (env : Env)
     (past fut : List Event) (b : Bundle) (hdom : Domain (past ++ .submit b :: fut)) (s : SpecSt) (n : Node)
     (inv : RInv c past s n) :
